@@ -770,11 +770,22 @@ func (w *c20World) postMonitors(s *c20Scn, before c20Store, res c20Result, mons 
 					continue
 				}
 				k := c20RegRepo{kind, c20WrittenName(im.Img)}
-				if len(bi[k]) > 0 && len(ai[k]) > len(bi[k]) {
-					sig := "C20:duplicate-package-source-parse" // same image name as written, yet the repo's "source" strings differ
+				// the index of an installed package and the lookup of a requested image agree on the "source"?
+				sameSrc := func(r *c20Ref) bool {
 					for _, b := range bi[k] {
 						if br := c20Parse(b.Raw); br != nil && br.Src == r.Src {
-							sig = "C20:duplicate-package" // the index had the source, the lookup missed it
+							return true
+						}
+					}
+					return false
+				}
+				if len(bi[k]) > 0 && len(ai[k]) > len(bi[k]) {
+					// D9 shape: every requested image of this name had its source in the index, yet one was installed
+					// again. Otherwise: the repo's "source" strings differ for one image name as written (D14 shape).
+					sig := "C20:duplicate-package"
+					for _, other := range ki.imgs {
+						if or := c20Parse(other.Img); or != nil && c20WrittenName(other.Img) == k.name && !sameSrc(or) {
+							sig = "C20:duplicate-package-source-parse"
 						}
 					}
 					add(sig, fmt.Sprintf("image %q: its registry/repository was already installed as %v, now installed as %v", im.Img, c20Names(bi[k]), c20Names(ai[k])))
@@ -802,8 +813,10 @@ func (w *c20World) postMonitors(s *c20Scn, before c20Store, res c20Result, mons 
 							}
 						}
 					}
-					if !found {
+					if !found && sameSrc(r) {
 						add("C20:package-not-updated-in-place", fmt.Sprintf("image %q was not applied to the object that had it installed", im.Img))
+					} else if !found {
+						add("C20:duplicate-package-source-parse", fmt.Sprintf("image %q was not applied to the object that had it installed (their \"source\" strings differ)", im.Img))
 					}
 				}
 			}
